@@ -167,6 +167,84 @@ theorem length_adel_le (k : α) (l : List (α × β)) : (adel k l).length ≤ l.
 
 end alist
 
+/-! ### the generated guards (Gen.lean, regenerated from network.py on every run) say what the proofs need
+
+    Each lemma is checked against the CURRENT source: if a guard of network.py changes so that it no longer implies the
+    fact used below (e.g. the identity test disappears from get_verified_by_address, or add_verified_peer stops looking
+    at blacklist_mids), the lemma — and with it every property theorem — no longer compiles. -/
+
+theorem ipEntryStale_false {x y : Bool} (h : Gen.ipEntryStale true x y = false) : x = true ∧ y = true := by
+  cases x <;> cases y <;> simp [Gen.ipEntryStale] at h ⊢
+
+theorem svcHitKeep_iff (x y : Bool) : Gen.svcHitKeep x y = true ↔ x = true ∧ y = true := by
+  cases x <;> cases y <;> simp [Gen.svcHitKeep]
+
+theorem introHitKeep_some (y : Bool) : Gen.introHitKeep true y = y := by cases y <;> rfl
+theorem introHitKeep_none : Gen.introHitKeep false false = false := rfl
+
+theorem rmaKeep_eq (x : Bool) : Gen.rmaKeep x = !x := by cases x <;> rfl
+
+theorem snapshotKeep_eq (z : Bool) : Gen.snapshotKeep true z = !z := by cases z <;> rfl
+
+theorem walkSkip_eq (a b : Bool) : Gen.walkSkip a b = (a && b) := by cases a <;> cases b <;> rfl
+
+theorem addBranch_eq (a b c d : Bool) :
+    Gen.addBranch a b c d = if a then 0 else if b then 1 else if c then 2 else if d then 3 else 4 := by
+  cases a <;> cases b <;> cases c <;> cases d <;> rfl
+
+/-- the generated guard chain selects the branches of the reference form -/
+theorem addVerified_eq (s : Net) (p : Peer) : s.addVerified p = s.addVerifiedRef p := by
+  unfold Net.addVerified Net.addVerifiedRef
+  rw [addBranch_eq]
+  by_cases h1 : p.key ∈ s.g.blMid
+  · simp [h1]
+  · cases h2 : s.known p.key
+    · cases h3 : p.addrList.any (fun a => s.g.knownAddr a)
+      · cases h4 : p.addrList.all (fun a => !decide (a ∈ s.g.blAddr)) <;> simp [h1]
+      · simp [h1]
+    · simp [h1]
+
+/-- reference form of `removeByAddress` (keep condition written out) -/
+def Net.removeByAddressRef (s : Net) (a : Addr) : Net :=
+  let gone : List Key := (s.g.verified.filter (fun q => q.hasAddr a)).map (·.key)
+  { s with g := { s.g with allAddr := adel a s.g.allAddr,
+                           verified := s.g.verified.filter (fun q => !q.hasAddr a),
+                           services := s.g.services.filter (fun e => !decide (e.1 ∈ gone)) },
+           byKey := s.byKey.filter (fun e => !decide (e.1 ∈ gone)),
+           vgen := s.vgen.filter (fun e => !decide (e.1 ∈ gone)),
+           graveyard := s.bury (s.g.verified.filter (fun q => q.hasAddr a)) }
+
+/-- needs: remove_by_address pops the address, replaces the set AND pops the index for the removed peers -/
+theorem removeByAddress_eq (s : Net) (a : Addr) : s.removeByAddress a = s.removeByAddressRef a := by
+  unfold Net.removeByAddress Net.removeByAddressRef
+  simp only [rmaKeep_eq, Bool.not_not, Gen.rmaPopsAddress, Gen.rmaReplacesSet, Gen.rmaPopsIndex, if_true]
+
+/-- reference forms of `removePeer` / `verifyNew` (all effects present) -/
+def Net.removePeerRef (s : Net) (p : Peer) : Net :=
+  { s with g := { s.g with allAddr := s.g.allAddr.filter (fun e => !p.hasAddr e.1),
+                           verified := s.g.verified.filter (fun q => !decide (q.key = p.key)),
+                           services := adel p.key s.g.services },
+           byKey := adel p.key s.byKey,
+           vgen := adel p.key s.vgen,
+           graveyard := s.bury (s.g.verified.filter (fun q => decide (q.key = p.key))) }
+
+/-- needs: remove_peer pops the addresses, the set entry, the index entry and the services -/
+theorem removePeer_eq (s : Net) (p : Peer) : s.removePeer p = s.removePeerRef p := by
+  unfold Net.removePeer Net.removePeerRef
+  simp only [Gen.rmpPopsAddresses, Gen.rmpRemovesFromSet, Gen.rmpPopsIndex, Gen.rmpPopsServices, if_true]
+
+def Net.verifyNewRef (s : Net) (p : Peer) : Net :=
+  { s with g := { s.g with verified := s.g.verified ++ [p] },
+           byKey := aset p.key s.nextGen s.byKey,
+           vgen := aset p.key s.nextGen s.vgen,
+           nextGen := s.nextGen + 1,
+           svcCache := s.svcCache.filter (fun e => !s.g.hasService p.key e.1) }
+
+/-- needs: both verifying branches store the peer in the index, and the service-cache invalidation is there -/
+theorem verifyNew_eq (s : Net) (p : Peer) : s.verifyNew p = s.verifyNewRef p := by
+  unfold Net.verifyNew Net.verifyNewRef
+  simp only [Gen.addSetsIndex, Gen.addInvalidatesServiceCache, if_true]
+
 /-! ### the coherence invariant -/
 
 /-- CacheCoherent: the index agrees with the membership set, dict keys are unique, and every cached list is
@@ -265,6 +343,7 @@ theorem known_iff_akeys (s : Net) (k : Key) : s.known k = true ↔ k ∈ akeys s
 
 theorem coherent_verifyNew {s : Net} (h : Coherent s) (p : Peer) (hk : p.key ∉ s.g.keys) :
     Coherent (s.verifyNew p) := by
+  rw [verifyNew_eq]
   refine ⟨?_, h.addrNodup, ?_, ?_, h.introComplete, ?_, h.introNodup, ?_⟩
   rotate_left 3
   · intro k
@@ -283,8 +362,8 @@ theorem coherent_verifyNew {s : Net} (h : Coherent s) (p : Peer) (hk : p.key ∉
     rw [mem_akeys_aset, ← known_iff_akeys, h.byKeyIff k]
     simp [Graph.keys]
   · intro e he q hq hs
-    simp only [Net.verifyNew, List.mem_filter, Graph.hasService, Bool.not_eq_true', decide_eq_false_iff_not] at he
-    have hq' : q ∈ s.g.verified ∨ q = p := by simpa [Net.verifyNew] using hq
+    simp only [Net.verifyNewRef, List.mem_filter, Graph.hasService, Bool.not_eq_true', decide_eq_false_iff_not] at he
+    have hq' : q ∈ s.g.verified ∨ q = p := by simpa [Net.verifyNewRef] using hq
     rcases hq' with hq' | rfl
     · exact h.svcComplete e he.1 q hq' hs
     · exact absurd hs he.2
@@ -320,7 +399,8 @@ theorem coherent_updateStored {s : Net} (h : Coherent s) (k : Key) (new : List (
     · exact ⟨h.keysNodup, h.addrNodup, h.byKeyIff, h.svcComplete, h.introComplete, h.idxSame, h.introNodup, h.svcNodup⟩
 
 theorem coherent_addVerified {s : Net} (h : Coherent s) (p : Peer) : Coherent (s.addVerified p) := by
-  unfold Net.addVerified
+  rw [addVerified_eq]
+  unfold Net.addVerifiedRef
   split
   · exact h
   split
@@ -475,6 +555,7 @@ theorem servicesOf_filter_subset (g g' : Graph) (P : Key → Bool) (k : Key) (sv
   · simp at h
 
 theorem coherent_removePeer {s : Net} (h : Coherent s) (p : Peer) : Coherent (s.removePeer p) := by
+  rw [removePeer_eq]
   refine ⟨?_, nodup_akeys_filter _ h.addrNodup, ?_, ?_, ?_, ?_, h.introNodup, h.svcNodup⟩
   rotate_left 4
   · intro k
@@ -483,14 +564,14 @@ theorem coherent_removePeer {s : Net} (h : Coherent s) (p : Peer) : Coherent (s.
     rw [aget_filter_key (fun k' => !decide (k' = p.key)), aget_filter_key (fun k' => !decide (k' = p.key)), h.idxSame]
   · exact List.Nodup.sublist (List.Sublist.map _ List.filter_sublist) h.keysNodup
   · intro k
-    have h1 : (s.removePeer p).known k = if (!decide (k = p.key)) = true then s.known k else false := by
-      unfold Net.known Net.removePeer adel
+    have h1 : (s.removePeerRef p).known k = if (!decide (k = p.key)) = true then s.known k else false := by
+      unfold Net.known Net.removePeerRef adel
       simp only
       rw [aget_filter_key (fun k' => !decide (k' = p.key))]
       split <;> simp
     rw [h1]
-    have h2 : k ∈ (s.removePeer p).g.keys ↔ k ∈ s.g.keys ∧ k ≠ p.key := by
-      simp only [Net.removePeer, Graph.keys, List.mem_map, List.mem_filter, Bool.not_eq_true',
+    have h2 : k ∈ (s.removePeerRef p).g.keys ↔ k ∈ s.g.keys ∧ k ≠ p.key := by
+      simp only [Net.removePeerRef, Graph.keys, List.mem_map, List.mem_filter, Bool.not_eq_true',
         decide_eq_false_iff_not]
       constructor
       · rintro ⟨q, ⟨hq, hne⟩, rfl⟩; exact ⟨⟨q, hq, rfl⟩, hne⟩
@@ -505,6 +586,7 @@ theorem coherent_removePeer {s : Net} (h : Coherent s) (p : Peer) : Coherent (s.
     exact h.introComplete e he a w (List.mem_filter.1 haw).1 hw
 
 theorem coherent_removeByAddress {s : Net} (h : Coherent s) (a : Addr) : Coherent (s.removeByAddress a) := by
+  rw [removeByAddress_eq]
   refine ⟨?_, nodup_akeys_filter _ h.addrNodup, ?_, ?_, ?_, ?_, h.introNodup, h.svcNodup⟩
   rotate_left 4
   · intro k
@@ -515,14 +597,14 @@ theorem coherent_removeByAddress {s : Net} (h : Coherent s) (a : Addr) : Coheren
   · exact List.Nodup.sublist (List.Sublist.map _ List.filter_sublist) h.keysNodup
   · intro k
     let gone : List Key := (s.g.verified.filter (fun q => q.hasAddr a)).map (·.key)
-    have h1 : (s.removeByAddress a).known k = if (!decide (k ∈ gone)) = true then s.known k else false := by
-      unfold Net.known Net.removeByAddress
+    have h1 : (s.removeByAddressRef a).known k = if (!decide (k ∈ gone)) = true then s.known k else false := by
+      unfold Net.known Net.removeByAddressRef
       simp only
       rw [aget_filter_key (fun k' => !decide (k' ∈ gone))]
       split <;> simp
     rw [h1]
-    have h2 : k ∈ (s.removeByAddress a).g.keys ↔ k ∈ s.g.keys ∧ k ∉ gone := by
-      simp only [Net.removeByAddress, Graph.keys, List.mem_map, List.mem_filter, Bool.not_eq_true', gone]
+    have h2 : k ∈ (s.removeByAddressRef a).g.keys ↔ k ∈ s.g.keys ∧ k ∉ gone := by
+      simp only [Net.removeByAddressRef, Graph.keys, List.mem_map, List.mem_filter, Bool.not_eq_true', gone]
       constructor
       · rintro ⟨q, ⟨hq, hne⟩, rfl⟩
         refine ⟨⟨q, hq, rfl⟩, ?_⟩
@@ -590,10 +672,12 @@ theorem chooseByAddr_some {s : Net} (h : Coherent s) {a : Addr} {hint : Option K
         split at hq
         · rename_i obj hobj
           split at hq
-          · rename_i hcond
-            cases hq
-            exact ⟨(deref_live h hcond.1 hobj).1, by simpa [Peer.hasAddr] using hcond.2⟩
           · cases hq
+          · rename_i hstale
+            cases hq
+            have hcond := ipEntryStale_false (Bool.eq_false_iff.2 hstale)
+            simp only [decide_eq_true_eq] at hcond
+            exact ⟨(deref_live h hcond.1 hobj).1, by simpa [Peer.hasAddr] using hcond.2⟩
         · cases hq
       · cases hq
     · exact List.mem_filter.1 (List.mem_of_mem_head? hc)
@@ -661,7 +745,7 @@ theorem peersForService_ok {s : Net} (h : Coherent s) (sv : Svc) : s.g.AnsServic
     · refine List.Nodup.filterMap ?_ ((h.svcNodup _ (aget_some_mem hl)).filter _)
       intro k k' p hk hk'
       rw [(find_some (Option.mem_def.1 hk)).2.symm, (find_some (Option.mem_def.1 hk')).2]
-    · simp only [List.mem_filterMap, List.mem_filter, Bool.and_eq_true, decide_eq_true_eq, Graph.hasService]
+    · simp only [List.mem_filterMap, List.mem_filter, svcHitKeep_iff, decide_eq_true_eq, Graph.hasService]
       constructor
       · rintro ⟨k, ⟨_, _, hsv⟩, hf⟩
         obtain ⟨hp, rfl⟩ := find_some hf
@@ -727,6 +811,7 @@ theorem walkable_ok {s : Net} (h : Coherent s) (svc : Option Svc) (o : Bool) : s
     · rintro ⟨⟨hk, hnot⟩, hf⟩
       refine ⟨fun p hp hsv => hnot p ((hps p).2 ⟨hp, hsv⟩), ?_⟩
       unfold Graph.walkFilter at hf
+      simp only [walkSkip_eq] at hf
       split at hf
       · cases hf
       · rename_i w hw
@@ -745,7 +830,7 @@ theorem walkable_ok {s : Net} (h : Coherent s) (svc : Option Svc) (o : Bool) : s
       refine ⟨⟨mem_akeys_iff.2 ⟨w, hw⟩, fun p hp => hnot p ((hps p).1 hp).1 ((hps p).1 hp).2⟩, ?_⟩
       unfold Graph.walkFilter
       rw [mem_aget_of_nodup h.addrNodup hw]
-      simp only
+      simp only [walkSkip_eq]
       split
       · rename_i hc; simp only [Bool.and_eq_true] at hc; exact absurd hc.2 (hstyle hc.1)
       · simp only [Bool.or_eq_true, decide_eq_true_eq]
@@ -758,7 +843,7 @@ theorem introsFrom_ok {s : Net} (h : Coherent s) (k : Key) : s.g.AnsIntro k (s.i
   split
   · rename_i l hl
     refine ⟨(h.introNodup _ (aget_some_mem hl)).filter _, fun a => ?_⟩
-    simp only [List.mem_filter, Graph.introducedBy]
+    simp only [List.mem_filter, Graph.introducedBy, introHitKeep_some, introHitKeep_none]
     constructor
     · rintro ⟨_, hv⟩
       split at hv
@@ -855,7 +940,8 @@ theorem updateStored_g {s : Net} (h : Coherent s) (k : Key) (new : List (Nat × 
 theorem addVerified_g {s : Net} (h : Coherent s) (p : Peer) :
     (s.addVerified p).g = s.g.addVerified p := by
   have hk := h.byKeyIff
-  unfold Net.addVerified Graph.addVerified
+  rw [addVerified_eq]
+  unfold Net.addVerifiedRef Graph.addVerified
   rw [known_eq hk]
   by_cases h1 : p.key ∈ s.g.blMid
   · simp [h1]
@@ -887,6 +973,12 @@ theorem step_g {s : Net} (h : Coherent s) (op : Op) : (step s op).g = s.g.step o
   | add p => exact addVerified_g h p
   | disc p a svc ns => exact discoverAddress_g h p a svc ns
   | setAddr k slot a => exact updateStored_g h k _
+  | rmAddr a =>
+    show (s.removeByAddress a).g = _
+    rw [removeByAddress_eq]; rfl
+  | rmPeer p =>
+    show (s.removePeer p).g = _
+    rw [removePeer_eq]; rfl
   | qAddr a hint =>
     obtain ⟨c, hc⟩ := getByAddr_state s a hint
     show (s.getByAddr a hint).2.g = s.g
@@ -1043,8 +1135,9 @@ theorem length_touch_fold (k : Key) (svcs : List Svc) (c : List (Svc × List Key
   | nil => rfl
   | cons sv t ih => rw [List.foldl_cons, ih]; simp [touchSvc]
 
-theorem bounded_verifyNew {s : Net} (h : Bounded s) (p : Peer) : Bounded (s.verifyNew p) :=
-  ⟨h.ip, h.intro, Nat.le_trans (List.length_filter_le _ _) h.svc⟩
+theorem bounded_verifyNew {s : Net} (h : Bounded s) (p : Peer) : Bounded (s.verifyNew p) := by
+  rw [verifyNew_eq]
+  exact ⟨h.ip, h.intro, Nat.le_trans (List.length_filter_le _ _) h.svc⟩
 
 theorem bounded_updateStored {s : Net} (h : Bounded s) (k : Key) (new : List (Nat × Addr)) :
     Bounded (s.updateStored k new) := by
@@ -1054,7 +1147,8 @@ theorem bounded_updateStored {s : Net} (h : Bounded s) (k : Key) (new : List (Na
   · split <;> exact ⟨h.ip, h.intro, h.svc⟩
 
 theorem bounded_addVerified {s : Net} (h : Bounded s) (p : Peer) : Bounded (s.addVerified p) := by
-  unfold Net.addVerified
+  rw [addVerified_eq]
+  unfold Net.addVerifiedRef
   split; · exact h
   split; · exact bounded_updateStored h _ _
   split
@@ -1084,8 +1178,12 @@ theorem bounded_step {s : Net} (h : Bounded s) (op : Op) : Bounded (step s op) :
     refine ⟨h.ip, h.intro, ?_⟩
     show (List.foldl (touchSvc p.key) s.svcCache l).length ≤ s.svcCap
     rw [length_touch_fold]; exact h.svc
-  | rmPeer p => exact ⟨h.ip, h.intro, h.svc⟩
-  | rmAddr a => exact ⟨h.ip, h.intro, h.svc⟩
+  | rmPeer p =>
+    show Bounded (s.removePeer p)
+    rw [removePeer_eq]; exact ⟨h.ip, h.intro, h.svc⟩
+  | rmAddr a =>
+    show Bounded (s.removeByAddress a)
+    rw [removeByAddress_eq]; exact ⟨h.ip, h.intro, h.svc⟩
   | blAddr a => exact ⟨h.ip, h.intro, h.svc⟩
   | blMid k => exact ⟨h.ip, h.intro, h.svc⟩
   | load d => exact ⟨h.ip, h.intro, h.svc⟩
@@ -1213,18 +1311,19 @@ theorem mem_akeys_loadAddrs (all : List (Addr × WAddr)) (l : List Addr) (a : Ad
 theorem mem_snapshotAddrs (g : Graph) (a : Addr) :
     a ∈ g.snapshotAddrs ↔ ∃ p ∈ g.verified, p.preferred = some a ∧ a ≠ zeroAddr := by
   unfold Graph.snapshotAddrs
-  simp only [List.mem_filterMap]
+  simp only [List.mem_filterMap, snapshotKeep_eq]
   constructor
   · rintro ⟨p, hp, h⟩
-    split at h
-    · rename_i a' ha'
-      split at h
-      · cases h
-      · rename_i hz; cases h; exact ⟨p, hp, ha', hz⟩
-    · cases h
+    cases hpref : p.preferred with
+    | none => simp [hpref] at h
+    | some a' =>
+      simp only [hpref] at h
+      by_cases hz : a' = zeroAddr
+      · simp [hz] at h
+      · simp only [hz, decide_false, Bool.not_false, if_true, Option.some.injEq] at h
+        subst h; exact ⟨p, hp, hpref, hz⟩
   · rintro ⟨p, hp, h1, h2⟩
     exact ⟨p, hp, by simp [h1, h2]⟩
-
 
 /-! ### consequences used by the property theorems -/
 
